@@ -698,16 +698,40 @@ static void op_watch(const op_t *op)
     free(name); free(path);
 }
 
-static void op_ctty(void)
+static pid_t g_tty_reader; static int g_tty_slave_fd = -1;
+static void op_ctty(const op_t *op)
 {
+    /* args: none, or "lazy" <delay ms> <file>: the terminal is read by a helper process that starts draining only after the delay
+       (a stalled / slow terminal) and copies everything it ever receives into <file> */
     int m, sl;
     struct termios tio;
     if (setsid() < 0) { /* already a leader: fork is the caller's business */ }
     if (openpty(&m, &sl, NULL, NULL, NULL) < 0) { ev_error("openpty"); return; }
     tcgetattr(sl, &tio); cfmakeraw(&tio); tcsetattr(sl, TCSANOW, &tio);
     if (ioctl(sl, TIOCSCTTY, 0) < 0) ev_error("TIOCSCTTY");
-    sink_add(SK_STREAM, "tty", m, NULL);
+    if (op->n >= 3) {
+        int delay = arg_int(&op->a[1]);
+        char *path = dupz(op->a[2].p, op->a[2].len);
+        fflush(NULL);
+        pid_t h = fork();
+        if (h == 0) {
+            signal(SIGHUP, SIG_IGN);
+            close(sl);
+            for (int fd = 3; fd < 256; fd++) if (fd != m) close(fd);
+            int o = open(path, O_WRONLY | O_CREAT | O_TRUNC, 0666);
+            usleep((useconds_t) delay * 1000);
+            char b[65536];
+            for (;;) { ssize_t k = read(m, b, sizeof b); if (k <= 0) { if (k < 0 && errno == EINTR) continue; break; } if (write(o, b, (size_t) k) < 0) break; }
+            _exit(0);
+        }
+        g_tty_reader = h;
+        close(m);
+        free(path);
+    } else {
+        sink_add(SK_STREAM, "tty", m, NULL);
+    }
     int nf = next_sink_fd++; dup2(sl, nf); close(sl);
+    g_tty_slave_fd = nf;
 }
 
 static void op_ids(const op_t *op)
@@ -979,7 +1003,12 @@ static void run_ops(op_t *ops, int nops)
         case 'S': op_stdio(op); break;
         case 'K': op_sock(op); break;
         case 'W': op_watch(op); break;
-        case 'T': op_ctty(); break;
+        case 'T': op_ctty(op); break;
+        case 'y': { /* hang up the lazily read terminal and wait until its reader has copied everything */
+            signal(SIGHUP, SIG_IGN);     /* the reader closing the master side hangs the terminal up */
+            if (g_tty_slave_fd >= 0) { close(g_tty_slave_fd); g_tty_slave_fd = -1; }
+            if (g_tty_reader > 0) { int st; while (waitpid(g_tty_reader, &st, 0) < 0 && errno == EINTR) ; g_tty_reader = 0; emit_simple('y', "terminal drained"); }
+            break; }
         case 'U': op_ids(op); break;
         case 'G': sinks_dump(); break;
         case 'Y': op_cliapi(); break;
